@@ -282,6 +282,9 @@ func primCases(r *rec, g *te.Gen, tier string) {
 	for _, bd := range bounds {
 		for _, ext := range []string{"", ",sizeExt"} {
 			lens := []int64{bd[0], bd[1], bd[1] + 1, bd[0] - 1, (bd[0] + bd[1]) / 2, 127, 128, 129, 300}
+			if bd[0] < 0 {
+				lens = append(lens, 1, 2)
+			}
 			if tier == "thorough" {
 				lens = append(lens, 16383)
 			}
@@ -367,6 +370,34 @@ func primCases(r *rec, g *te.Gen, tier string) {
 			}
 		}
 	}
+	// SEQUENCE OF whose items are octet-aligned (two-octet OCTET STRINGs): counts around the one-octet / two-octet length boundary
+	for _, n := range []int{1, 127, 128, 200} {
+		nn := n
+		run("seqof-aligned", offs[nn%len(offs)], reflect.SliceOf(aper.OctetStringType), "sizeLB:0,sizeUB:65535", func(f reflect.Value) {
+			s := reflect.MakeSlice(reflect.SliceOf(aper.OctetStringType), nn, nn)
+			for j := 0; j < nn; j++ {
+				s.Index(j).Set(reflect.ValueOf(aper.OctetString(ev.Bytes(g.R, 2))))
+			}
+			f.Set(s)
+		})
+	}
+	// a SEQUENCE whose mandatory component is a nil pointer denotes no value and must be refused
+	{
+		st := reflect.StructOf([]reflect.StructField{
+			{Name: "A", Type: reflect.PtrTo(i64), Tag: `aper:"valueLB:0,valueUB:255"`},
+			{Name: "B", Type: i64, Tag: `aper:"valueLB:0,valueUB:7"`}})
+		for k := 0; k < 2; k++ {
+			kk := k
+			run("seq-nil", offs[k], st, "valueExt", func(f reflect.Value) {
+				f.Field(1).SetInt(5)
+				if kk == 1 {
+					p := reflect.New(i64)
+					p.Elem().SetInt(77)
+					f.Field(0).Set(p)
+				}
+			})
+		}
+	}
 	// CHOICE of 2..9 alternatives, and an unset CHOICE
 	for nalt := 1; nalt <= 9; nalt++ {
 		for _, ext := range []string{"", ",valueExt"} {
@@ -375,11 +406,17 @@ func primCases(r *rec, g *te.Gen, tier string) {
 				fs = append(fs, reflect.StructField{Name: fmt.Sprintf("A%d", j), Type: optT, Tag: `aper:"valueLB:0,valueUB:255"`})
 			}
 			ct := reflect.StructOf(fs)
-			for sel := 0; sel <= nalt; sel++ {
+			// sel = 0: unset; 1..nalt: that alternative; nalt+1: Present beyond the alternatives; nalt+2: the first alternative selected but
+			// its pointer left nil - the last three denote no ASN.1 value and must be refused
+			for sel := 0; sel <= nalt+2; sel++ {
 				s := sel
 				run("choice", offs[sel%len(offs)], ct, fmt.Sprintf("valueLB:0,valueUB:%d%s", nalt-1, ext), func(f reflect.Value) {
+					if s == nalt+2 {
+						f.Field(0).SetInt(1)
+						return
+					}
 					f.Field(0).SetInt(int64(s))
-					if s > 0 {
+					if s > 0 && s <= nalt {
 						p := reflect.New(i64)
 						p.Elem().SetInt(int64(g.R.Intn(256)))
 						f.Field(s).Set(p)
@@ -391,8 +428,9 @@ func primCases(r *rec, g *te.Gen, tier string) {
 }
 
 func openCases(r *rec, g *te.Gen) {
-	// open types with inner lengths 0, 1, 127, 128, 16383 via NAS-PDU inside DownlinkNASTransport
-	for _, n := range []int{0, 1, 2, 126, 127, 128, 129, 1000, 16380} {
+	// open types with inner lengths 0, 1, 127, 128, 16383 via NAS-PDU inside DownlinkNASTransport (16381: the value of the IE is 16383
+	// octets, the last length that is not fragmented)
+	for _, n := range []int{0, 1, 2, 126, 127, 128, 129, 1000, 16380, 16381} {
 		pdu := ngapType.NGAPPDU{Present: 1, InitiatingMessage: &ngapType.InitiatingMessage{}}
 		im := pdu.InitiatingMessage
 		im.ProcedureCode.Value = ngapType.ProcedureCodeDownlinkNASTransport
@@ -417,6 +455,11 @@ func openCases(r *rec, g *te.Gen) {
 		if n == 1 {
 			im.Value.DownlinkNASTransport.ProtocolIEs.List = []ngapType.DownlinkNASTransportIEs{ie3, ie}
 			r.roundtrip("DownlinkNASTransport", "open-mismatch", reflect.ValueOf(pdu), pduTag, true)
+			// the same at the top level: the procedure code of another message over this message's body
+			im.Value.DownlinkNASTransport.ProtocolIEs.List = []ngapType.DownlinkNASTransportIEs{ie2, ie}
+			im.ProcedureCode.Value = ngapType.ProcedureCodeUplinkNASTransport
+			r.roundtrip("DownlinkNASTransport", "open-mismatch", reflect.ValueOf(pdu), pduTag, true)
+			im.ProcedureCode.Value = ngapType.ProcedureCodeDownlinkNASTransport
 		}
 	}
 }
